@@ -34,7 +34,7 @@ type Inj struct {
 	Box  int    `json:"box"`
 	N    int    `json:"n"`
 	Here bool   `json:"here,omitempty"` // act on the mailbox the scan is looking at
-	Pt   string `json:"pt,omitempty"`   // "" = every yield point counts; "scan" = only the scan's per-mailbox callback
+	Pt   string `json:"pt,omitempty"`   // "" = every yield point counts; "scan" = only the scan's per-mailbox callback; "visit" = only the store turning to a mailbox
 }
 
 type Case struct {
@@ -43,6 +43,7 @@ type Case struct {
 	NBoxes  int    `json:"nboxes"`
 	Msgs    []Msg  `json:"msgs"`
 	Inject  []Inj  `json:"inject,omitempty"`
+	MaxKB   int    `json:"maxkb,omitempty"` // mem only: store-wide size limit (never reached here), i.e. the size enforcer is running
 }
 
 func age(class string, period time.Duration) time.Duration {
@@ -62,7 +63,8 @@ var prop = hx.Prop[Case]{
 	Rule: "1-8 mailboxes (lock-bucket and directory mates) holding 0-12 messages each with ages {far beyond the period, period+90s, " +
 		"period-90s, in the future}, periods 3 min..72 h, both back-ends, RetentionSleep 0; half of the cases inject deliveries, removals " +
 		"and purges at the scan's yield points (between mailboxes, between the file store's directory levels), executed at that exact " +
-		"moment; oracle: DoScan returns nil, every message older than the period is gone, every younger one (incl. those delivered during " +
+		"moment, among them deliveries of expired mail into the mailbox the scan is turning to which (mem store, with and without a size limit) " +
+		"stay between 'visible' and 'registered with the size enforcer' until the scan is over; oracle: DoScan returns (within 60 s) nil, every message older than the period is gone, every younger one (incl. those delivered during " +
 		"the scan) remains with its content unless an injected operation removed it; non-trivial = some mailbox holds both expired and " +
 		"unexpired messages and some mailbox is emptied completely",
 	Quick: 250, Thorough: 1800,
@@ -71,6 +73,9 @@ var prop = hx.Prop[Case]{
 			Backend: rapid.SampledFrom([]string{"mem", "file", "file"}).Draw(t, "backend"),
 			Period:  rapid.SampledFrom([]int{180, 600, 3600, 86400, 259200}).Draw(t, "period"),
 			NBoxes:  rapid.IntRange(1, 8).Draw(t, "nboxes"),
+		}
+		if c.Backend == "mem" {
+			c.MaxKB = rapid.SampledFrom([]int{0, 65536}).Draw(t, "maxkb")
 		}
 		// each mailbox gets a profile so that wholly expired, wholly fresh and mixed mailboxes all occur
 		for b := 0; b < c.NBoxes; b++ {
@@ -91,9 +96,13 @@ var prop = hx.Prop[Case]{
 		}
 		if rapid.Bool().Draw(t, "concurrent") {
 			c.Inject = rapid.SliceOfN(rapid.Custom(func(t *rapid.T) Inj {
-				return Inj{At: rapid.IntRange(0, 9).Draw(t, "at"), Pt: rapid.SampledFrom([]string{"", "scan", "scan"}).Draw(t, "pt"), K: rapid.SampledFrom([]string{"deliver", "remove", "purge", "purge", "purge-refill"}).Draw(t, "k"),
+				return Inj{At: rapid.IntRange(0, 9).Draw(t, "at"), Pt: rapid.SampledFrom([]string{"", "scan", "scan"}).Draw(t, "pt"), K: rapid.SampledFrom([]string{"deliver", "deliver-held", "remove", "purge", "purge", "purge-refill"}).Draw(t, "k"),
 					Box: rapid.IntRange(0, c.NBoxes-1).Draw(t, "ibox"), N: rapid.IntRange(0, 12).Draw(t, "n"), Here: rapid.Bool().Draw(t, "here")}
 			}), 1, 4).Draw(t, "inject")
+			if rapid.Bool().Draw(t, "heldvisit") {
+				// expired mail arriving in a mailbox at the moment the scan turns to it
+				c.Inject = append(c.Inject, Inj{At: rapid.IntRange(0, c.NBoxes-1).Draw(t, "hat"), Pt: "visit", K: "deliver-held", Here: true})
+			}
 		}
 		return c
 	},
@@ -115,7 +124,7 @@ func run(c Case) *hx.Outcome {
 		defer os.RemoveAll(dir)
 		st = hx.NewFile(host, dir, 0)
 	} else {
-		st = hx.NewMem(host, 0, 0)
+		st = hx.NewMem(host, 0, c.MaxKB)
 	}
 	names := boxNames(c.NBoxes)
 	period := time.Duration(c.Period) * time.Second
@@ -124,6 +133,7 @@ func run(c Case) *hx.Outcome {
 		box, id string
 		expired bool
 		gone    bool // removed by an injected operation
+		either  bool // expired mail that arrived while the scan was under way: it may or may not have been looked at
 		body    []byte
 	}
 	var all []*want
@@ -158,8 +168,14 @@ func run(c Case) *hx.Outcome {
 	}
 	o.NonTrivial = mixed && emptied
 	// injected operations at the scan's yield points
-	var yields, scanYields atomic.Int32
+	var yields, scanYields, visitYields atomic.Int32
 	injected := 0
+	// deliver-held: a delivery of expired mail made by another goroutine, which (mem store) stays
+	// between "visible in its mailbox" and "registered with the size enforcer" until the scan is over
+	var heldPending atomic.Int32
+	heldVisible := make(chan string)
+	heldRelease := make(chan struct{})
+	var heldWG sync.WaitGroup
 	if len(c.Inject) > 0 {
 		byHash := map[string]string{}
 		for _, nm := range names {
@@ -167,6 +183,13 @@ func run(c Case) *hx.Outcome {
 		}
 		current := ""
 		verifhook.SetYield(func(point string) {
+			if strings.HasPrefix(point, "mem.add.visible ") {
+				if heldPending.CompareAndSwap(1, 0) {
+					heldVisible <- strings.TrimPrefix(point, "mem.add.visible ")
+					<-heldRelease
+				}
+				return
+			}
 			if !strings.HasPrefix(point, "retention.scan.mailbox") && !strings.HasPrefix(point, "file.visit.") && !strings.HasPrefix(point, "mem.visit.") {
 				return
 			}
@@ -183,8 +206,12 @@ func run(c Case) *hx.Outcome {
 			if strings.HasPrefix(point, "retention.scan.mailbox") {
 				ns = int(scanYields.Add(1)) - 1
 			}
+			nv := -1
+			if strings.HasPrefix(point, "mem.visit.mailbox ") || strings.HasPrefix(point, "file.visit.mailbox ") {
+				nv = int(visitYields.Add(1)) - 1
+			}
 			for _, in := range c.Inject {
-				if (in.Pt == "" && in.At != n) || (in.Pt == "scan" && in.At != ns) {
+				if (in.Pt == "" && in.At != n) || (in.Pt == "scan" && in.At != ns) || (in.Pt == "visit" && in.At != nv) {
 					continue
 				}
 				injected++
@@ -198,6 +225,29 @@ func run(c Case) *hx.Outcome {
 					id, err := st.AddMessage(hx.NewDelivery(box, nil, nil, time.Now(), "young", body))
 					if err == nil {
 						all = append(all, &want{box: box, id: id, body: body})
+					}
+				case "deliver-held":
+					body := []byte("Subject: old mail during scan\r\n\r\nexpired\r\n")
+					d := hx.NewDelivery(box, nil, nil, time.Now().Add(-age("ancient", period)), "old", body)
+					if c.Backend != "mem" {
+						if id, err := st.AddMessage(d); err == nil {
+							all = append(all, &want{box: box, id: id, either: true, body: body})
+						}
+						break
+					}
+					heldPending.Store(1)
+					heldWG.Add(1)
+					go func() {
+						defer heldWG.Done()
+						_, _ = st.AddMessage(d)
+					}()
+					select {
+					case at := <-heldVisible:
+						// visible before the scan lists this mailbox: it has to be removed like any expired message
+						must := strings.HasPrefix(point, "mem.visit.mailbox ") && box == current
+						all = append(all, &want{box: box, id: at[strings.LastIndexByte(at, '/')+1:], expired: must, either: !must, body: body})
+					case <-time.After(10 * time.Second):
+						heldPending.Store(0)
 					}
 				case "remove":
 					ms, _ := st.GetMessages(box)
@@ -234,7 +284,24 @@ func run(c Case) *hx.Outcome {
 		defer verifhook.SetYield(nil)
 	}
 	rs := storage.NewRetentionScanner(config.Storage{RetentionPeriod: period, RetentionSleep: 0}, st)
-	err := rs.DoScan(context.Background())
+	scanDone := make(chan error, 1)
+	go func() { scanDone <- rs.DoScan(context.Background()) }()
+	var err error
+	select {
+	case err = <-scanDone:
+	case <-time.After(60 * time.Second):
+		o.Failf(pid+":scan-stuck", "[%s maxkb=%d] DoScan has not returned after 60 s (injected operations: %+v)", c.Backend, c.MaxKB, c.Inject)
+		close(heldRelease)
+		return o
+	}
+	close(heldRelease)
+	heldBack := make(chan struct{})
+	go func() { heldWG.Wait(); close(heldBack) }()
+	select {
+	case <-heldBack:
+	case <-time.After(10 * time.Second):
+		o.Class("a delivery racing with the scan has not returned (C09's subject)")
+	}
 	verifhook.SetYield(nil)
 	if err != nil {
 		key := "scan-error"
@@ -245,6 +312,7 @@ func run(c Case) *hx.Outcome {
 		sm, gerr := st.GetMessage(w.box, w.id)
 		present := gerr == nil && sm != nil
 		switch {
+		case w.either:
 		case w.gone || w.expired:
 			if present && !w.gone {
 				o.Failf(pid+":expired-kept", "[%s] message %s/%s is older than the period (%v) but survived the scan (scan error: %v)", c.Backend, w.box, w.id, period, err)
